@@ -14,6 +14,7 @@ pub mod mon_c10;
 pub mod mon_c11;
 pub mod mon_recovery;
 pub mod mon_c12;
+pub mod mon_c13;
 pub mod net;
 pub mod rec;
 pub mod run;
@@ -80,6 +81,24 @@ pub fn registry() -> Vec<Property> {
                packet arrived during the closing period). Distinct = distinct scenarios.",
         assumptions: &["frames are decoded by the harness's own RFC 9000 parser (wire.rs)"],
         subs: mon_c12::subs(),
+        shards: 0,
+    },
+    Property {
+        id: "C13",
+        rule: "one server with 1-3 concurrent clients; connection-id providers with generated lengths (4-20), lifetimes (none or 60-90 s, with \
+               pauses of up to 15 s between writes so that ids expire while the connection is in use), handshake-id rotation on/off, \
+               max_active_connection_ids 2-8 on either side, 0-3 NAT rebindings of client sockets at generated instants, lossy network for the \
+               first datagrams. Ledger over NEW_CONNECTION_ID / RETIRE_CONNECTION_ID frames sent and processed (consecutive sequence numbers, \
+               distinct ids and reset tokens per endpoint, retire_prior_to, active count vs the peer's limit, identical retransmissions, retire only \
+               issued ids and never inside a packet addressed with the retired id) and routing of every fresh intact 1-RTT datagram addressed to an \
+               unretired id. Non-trivial: an id was retired and replaced, a datagram carrying NEW_/RETIRE_CONNECTION_ID was lost, and two \
+               connections with several ids were alive at once or a rebinding happened.",
+        assumptions: &[
+            "frames and datagram headers are decoded by the harness's own parser (wire.rs)",
+            "routing is judged after handshake confirmation, for packets not older than 100 below the largest processed packet number",
+            "preferred_address and zero-length local connection ids are not configurable in this code base",
+        ],
+        subs: mon_c13::subs(),
         shards: 0,
     },
     Property {
